@@ -148,7 +148,12 @@ func c02Run(c c02Case, res *WRes) {
 		}
 	}
 	if c.Smuggle == "client_id-other" && auth.Mode == "basic" {
-		auth.Extra = url.Values{"client_id": {"B"}}
+		// a body client_id naming a different client than the one authenticated in the header
+		other := "B"
+		if c.Present == "foreign-confidential" {
+			other = c.Owner
+		}
+		auth.Extra = url.Values{"client_id": {other}}
 	}
 	before := w.StateKey()
 	o := w.Token(form, auth)
